@@ -137,7 +137,8 @@ def run_cmaes(sc):
     total_episodes = sc.get("eplimit") or 6
     with _probing(rec):
         res, err = guarded(lambda: cmaes.train_cmaes(env, policy, total_episodes, seed=sc["seed"], variance=0.25,
-                                                     n_samples_per_update=sc.get("n_samples_per_update", 3), logger=logger, progress_bar=False))
+                                                     n_samples_per_update=sc.get("n_samples_per_update", 3), active=bool(sc.get("cma_active", False)),
+                                                     logger=logger, progress_bar=False))
     # one episode per candidate, no step budget, nothing is kept for learning (fitness = return only); the policy
     # parameters are set before each episode (candidate) - warm-up / cadence rules do not apply.
     cfg = base_cfg("cmaes", sc, budget=-1, start=0, eplimit=total_episodes, warmlearn=-1, warmact=-1, explore_only_in_warmup=False, ulpk=2,
